@@ -214,6 +214,15 @@ func c18BuildFixture(e *c18Env) error {
 	if err := e.create("alice", "dotted", c18DottedSchema(), dotted); err != nil {
 		return err
 	}
+	// target of the mixed-integer stream: one ranking index, one filter index, everything else unindexed
+	if err := e.create("alice", "mixed", models.IndexSchema{
+		"vec": {Type: "vectorVamana", VectorVamana: &models.IndexVectorVamanaParameters{VectorSize: 2, DistanceMetric: "euclidean", SearchSize: 75, DegreeBound: 64, Alpha: 1.2}},
+		"cat": {Type: "string", String: &models.IndexStringParameters{CaseSensitive: true}}}, nil); err != nil {
+		return err
+	}
+	for i := 0; i < 64; i++ {
+		e.known["alice/mixed"] = append(e.known["alice/mixed"], c18Id(0x200+i))
+	}
 	wide := make([]float32, 4096)
 	for i := range wide {
 		wide[i] = float32(i%7) - 3
